@@ -119,14 +119,12 @@ func gen(o hreg.Opts, w *bufio.Writer) error {
 	for i := range seeds {
 		seeds[i] = newSeed()
 	}
-	maxN := o.Pick(520, 4200)
+	maxN := o.Pick(520, 2100)
 	var sizes []int
 	for n := 0; n <= maxN; n++ {
 		sizes = append(sizes, n)
 	}
-	if !o.Thorough() {
-		sizes = append(sizes, bigSizes...)
-	}
+	sizes = append(sizes, bigSizes[len(bigSizes)-o.Pick(9, 3):]...) // thorough already walks through 767..1025
 	// A. whole-list functions
 	for _, n := range sizes {
 		big := n > 520
@@ -140,13 +138,13 @@ func gen(o hreg.Opts, w *bufio.Writer) error {
 			list(n, 255, seeds[(n+1)%nseeds])
 		}
 		if o.Thorough() {
-			if n <= 70 {
+			if n <= 40 {
 				for r := 0; r <= 255; r++ {
 					list(n, r, seeds[(n+r)%nseeds])
 				}
 			}
-			if n%97 == 0 || isBoundary(n) {
-				for _, s := range seeds {
+			if isBoundary(n) {
+				for _, s := range seeds[:20] {
 					list(n, 10, s)
 				}
 			}
